@@ -10,12 +10,10 @@
       groupdockey    document-valued group keys equal up to field order are merged
       addtosetboolnum  `$addToSet` merges `true` with `1`, `false` with `0` (Python `==`)
       lookupboolnum  `$lookup` joins `true` to `1` (Python `==`)
-      limitdouble    `$limit: 2.0` / `$skip: 1.0` (a double without fraction) are rejected;
-                     MongoDB takes them as the integer
     repaired in the library since (classes deleted, theorems strengthened; the witnesses stay
     regression cases of the check): countempty, groupnullempty, groupfalsyid, addtosetfalsy,
     firstmissing, minmaxtypes, sumbool, unwindindex, unwindindexparent, multiopstage, neglimit,
-    projectidexcl, accmissing, addfieldsorder
+    projectidexcl, accmissing, addfieldsorder, limitdouble
     scope limits (nothing is claimed; the model may still be compared with the code)
       nospec         the stage has no oracle in Spec/Pipeline.lean
       filterdomain / sortdomain / projdomain   the parameter is outside the domain of the
@@ -55,11 +53,7 @@ def stageReasons (op : String) (opts : Val) (docs : List Val) : List String :=
        | some spec => tag "sort:" (Spec.Order.specReasons spec docs)
        | none => ["nospec"])
     | _ => ["nospec"]
-  else if op = "$skip" || op = "$limit" then
-    -- the code wants a Python int; the oracle also takes a double that denotes an accepted count
-    (match opts with
-     | .dbl _ _ => if argRejected op opts then [] else ["limitdouble"]
-     | _ => [])
+  else if op = "$skip" || op = "$limit" then []
   else if op = "$count" then []
   else if op = "$project" then
     match opts with
